@@ -159,7 +159,7 @@ impl TlsState {
         } else if !self.script_written {
             let s = std::mem::take(&mut self.script);
             if self.part_ends.is_empty() {
-                let _ = self.client.writer().write_all(&s);
+                self.client.writer().write_all(&s).expect("VERIF harness bug: the TLS client did not take the whole script");
             } else {
                 // one write per client message: each becomes its own TLS record(s)
                 let mut from = 0;
@@ -344,7 +344,10 @@ fn run_tls_with(server_tls: Option<Arc<rustls::ServerConfig>>, client_cert: bool
 #[allow(clippy::too_many_arguments)]
 fn run_tls_full(server_tls: Option<Arc<rustls::ServerConfig>>, client_cert: bool, cuts: Vec<usize>, uniform: usize, alpn_pad: usize, tls12: bool, ssl_req: Option<Vec<u8>>, hs_seq: u8) -> TlsOutcome {
     let (bytes, _, _) = script_with(hs_seq);
-    let client = rustls::ClientConnection::new(client_config(client_cert, alpn_pad, tls12), ServerName::try_from("localhost").unwrap()).unwrap();
+    let mut client = rustls::ClientConnection::new(client_config(client_cert, alpn_pad, tls12), ServerName::try_from("localhost").unwrap()).unwrap();
+    // the whole script is handed to rustls at once; its default 64 KiB send-buffer limit would
+    // silently truncate longer scripts
+    client.set_buffer_limit(None);
     let st = TlsState {
         client,
         to_server: Vec::new(),
